@@ -177,4 +177,34 @@ def check(run, model, tier):
     init = ev.methods.get('__init__')
     regs = [x for x in shallow_calls(init.node) if isinstance(x.func, ast.Attribute) and x.func.attr == 'append' and dotted(x.func.value) == 'signals']
     run.inst('TABLE.json-rebuild', init, 'Event(str) registers the name', len(regs) >= 1, 'Event.__init__ no longer registers an unseen name', nontrivial=False)
+    # ---- the two functions composed, on a small domain of payloads: what the table rules cannot see is *which* value reaches a key on which path
+    # (a payload dropped when it is falsy, a local left unbound for an event without payload)
+    run.rule('TABLE.roundtrip-eval', 'loads(dumps(e)) evaluated for payloads None / falsy / scalar / nested: the rebuilt event is constructed from the same name and an equal payload')
+    import json as _json
+    from sa import pureeval
+    json_obj = pureeval.Obj(dumps=_json.dumps, loads=_json.loads)
+    built = []
+
+    def fake_event(signal=None, payload=None):
+        o = pureeval.Obj(signal_name=signal, payload=payload, signal=99)
+        built.append(o)
+        return o
+    payloads = [None, 'p', 7, 0, '', False, [], {}, {'k': [1, 'x', None]}, [1, [2, 3]], 1.5]
+    bad = None
+    try:
+        for P in payloads:
+            e0 = pureeval.Obj(signal_name='SIG_A', payload=P, signal=42)
+            try:
+                text = pureeval.call(dumps.node, [e0], globals_={'json': json_obj, 'None': None}, strict_locals=True)
+                del built[:]
+                back = pureeval.call(loads.node, [text], globals_={'json': json_obj, 'Event': fake_event, 'None': None}, strict_locals=True)
+                got = (getattr(back, 'signal_name', '<no event>'), getattr(back, 'payload', '<no event>')) if isinstance(back, pureeval.Obj) else ('<%r>' % (back,), None)
+            except pureeval.Raised as ex_:
+                got = ('raises ' + ex_.what, None)
+            if (got[0] != 'SIG_A' or got[1] != P or type(got[1]) is not type(P)) and bad is None:
+                bad = (P, got)
+        run.inst('TABLE.roundtrip-eval', dumps, 'loads(dumps(e)) over %d payloads' % len(payloads), bad is None,
+                 '' if bad is None else 'for an event SIG_A with payload %r the trip gives %r / %r' % (bad[0], bad[1][0], bad[1][1]), obligation=True)
+    except AnalysisError as ex_:
+        run.note('Event.dumps/loads are outside the evaluator\'s fragment (%s): decided by the table rules only' % ex_)
     run.assume('json.dumps/json.loads are inverse on JSON-representable payloads (stdlib)')
